@@ -1,22 +1,48 @@
 ------------------------------- MODULE VisitorP -------------------------------
-(* C18 (c): DirectoryVisitor as a stack of saved working directories.
-   cwd: the process working directory (0 = where the test started, 1..2 = test directories);
-   stack: the visitors alive, innermost last: [dir, old]; dir 0 = a visitor given an empty path (no visit).
-   A visitor changes into its directory when constructed and, when destroyed, restores the directory that
-   was current at its construction. Visitors are destroyed in LIFO order (C++ scopes). *)
+(* C18 (c): DirectoryVisitor objects and the process working directory.
+   cwd: the working directory (0 = where the test started, 1..2 = test directories);
+   stack: the visitors alive, innermost last. Per visitor: dir (0 = empty path: visit() does nothing),
+   old / saved (the directory remembered by the last visit()), fresh (ghost: no restore() since that visit).
+   A visitor constructed from a path visits at once; set() / visit() / restore() are public too, and the working
+   directory can change behind the visitor's back (Chdir). Destruction restores the directory that was current
+   at the LAST visit(); destroying a visitor that never visited changes nothing.
+   Visitors are destroyed in LIFO order (C++ scopes). *)
 EXTENDS Naturals, Sequences
 CONSTANTS MaxDepth, MaxSteps
 VARIABLES cwd, stack, steps
+vars == <<cwd, stack, steps>>
+Dirs == 0..2
 Init == cwd = 0 /\ stack = <<>> /\ steps = 0
-Construct(d) == /\ steps < MaxSteps /\ Len(stack) < MaxDepth /\ d \in 0..2
-                /\ IF d = 0 THEN stack' = Append(stack, [dir |-> 0, old |-> 0, saved |-> FALSE]) /\ UNCHANGED cwd
-                            ELSE stack' = Append(stack, [dir |-> d, old |-> cwd, saved |-> TRUE]) /\ cwd' = d
-                /\ steps' = steps + 1
-Destroy == /\ steps < MaxSteps /\ stack # <<>>
+Tick == steps < MaxSteps /\ steps' = steps + 1
+Idx == 1..Len(stack)
+NoVisit(d) == [dir |-> d, old |-> 0, saved |-> FALSE, fresh |-> FALSE]
+\* DirectoryVisitor(path): set + visit; DirectoryVisitor() / an empty path: no visit
+Construct(d) == /\ Tick /\ Len(stack) < MaxDepth /\ d \in Dirs
+                /\ IF d = 0 THEN stack' = Append(stack, NoVisit(0)) /\ UNCHANGED cwd
+                            ELSE stack' = Append(stack, [dir |-> d, old |-> cwd, saved |-> TRUE, fresh |-> TRUE]) /\ cwd' = d
+SetDir(i, d) == /\ Tick /\ i \in Idx /\ d \in Dirs /\ d # stack[i].dir
+                /\ stack' = [stack EXCEPT ![i].dir = d] /\ UNCHANGED cwd
+Visit(i) == /\ Tick /\ i \in Idx
+            /\ IF stack[i].dir = 0 THEN UNCHANGED <<cwd, stack>>
+               ELSE /\ stack' = [stack EXCEPT ![i].old = cwd, ![i].saved = TRUE, ![i].fresh = TRUE]
+                    /\ cwd' = stack[i].dir
+Restore(i) == /\ Tick /\ i \in Idx
+              /\ IF stack[i].saved THEN cwd' = stack[i].old /\ stack' = [stack EXCEPT ![i].fresh = FALSE]
+                                   ELSE UNCHANGED <<cwd, stack>>
+\* somebody else changes the working directory
+Chdir(d) == /\ Tick /\ d \in Dirs /\ d # cwd /\ cwd' = d /\ UNCHANGED stack
+Destroy == /\ Tick /\ stack # <<>>
            /\ LET v == stack[Len(stack)] IN cwd' = IF v.saved THEN v.old ELSE cwd
-           /\ stack' = SubSeq(stack, 1, Len(stack) - 1) /\ steps' = steps + 1
-Next == (\E d \in 0..2 : Construct(d)) \/ Destroy
-Spec == Init /\ [][Next]_<<cwd, stack, steps>>
-\* when every visitor is gone the original working directory is back
+           /\ stack' = SubSeq(stack, 1, Len(stack) - 1)
+Next == \/ \E d \in Dirs : Construct(d) \/ Chdir(d)
+        \/ \E i \in 1..MaxDepth : Visit(i) \/ Restore(i) \/ \E d \in Dirs : SetDir(i, d)
+        \/ Destroy
+Spec == Init /\ [][Next]_vars
+\* without outside interference and explicit calls (constructors and destructors only) the original directory is back
+\* once every visitor is gone: checked by MC_VisitorScoped.cfg through ScopedNext
+ScopedNext == (\E d \in Dirs : Construct(d)) \/ Destroy
+ScopedSpec == Init /\ [][ScopedNext]_vars
 Restored == stack = <<>> => cwd = 0
+\* C18: destruction leads back to the directory that was current at the visitor's last visit()
+DestroyRestores == [][(Destroy /\ stack[Len(stack)].saved) => cwd' = stack[Len(stack)].old]_vars
 =============================================================================
